@@ -63,6 +63,7 @@ fn main() {
         "conn-conc" => conn::run_conc(rest),
         "conn-recv" => conn::run_recv(rest),
         "serde-rt" => serde_rt::run(rest),
+        "serde-rt-random" => serde_rt::run_random(rest),
         "elixir-run" => elixir::run(rest),
         "epmd-run" => epmd::run(rest),
         "guard-run" => guard::run(rest),
